@@ -1079,6 +1079,7 @@ type kins =
 | KCall of z
 | KTest8 of z
 | KCmp64 of z * z
+| KCmpCell of z
 | KJe
 | KJne
 | KStore of z * z
@@ -1120,6 +1121,8 @@ val regs_restored : z -> ksym -> bool
 val u64M1 : z
 
 val call_ok : binstr -> z -> kins list -> bool
+
+val br_ok : binstr -> kins list -> bool
 
 type kind =
 | KPrintIr
